@@ -355,6 +355,45 @@ static int EmitSpecial(const std::string &dir) {
     std::ofstream f(dir + "/texcoord_" + (variant ? "pos21_uv21" : "pos16_uv30") + ".drc", std::ios::binary);
     f.write(er.bytes.data(), er.bytes.size());
   }
+  // Streams for the prediction decoders no current encoder selects (deprecated methods 2 = multi-parallelogram and
+  // 3 = tex-coords): a current stream whose prediction-method byte is rewritten (5 -> 3, 1 -> 2; the stored data has
+  // the same layout). Kept when the rewritten stream decodes OK and the hook reports the deprecated method.
+  // (Method 3 cannot be obtained that way - the rewritten stream does not decode; corpus/special/deprecated_texcoords_method3.drc
+  //  is the 184-byte stream embedded in seeded/r18/demo.cc, produced there by an encoder with a patched factory.)
+  for (int target = 2; target <= 2; ++target) {
+    Rng r(99, 6, target);
+    vf::Topo t;
+    vf::GridPatch(t, 4, 4, false, false);
+    vf::GenParams gp;
+    gp.allow_unused = false;
+    std::vector<vf::AttrPlan> plans = {{GeometryAttribute::POSITION, DT_FLOAT32, 3, false, 0, 0, 0}, {GeometryAttribute::TEX_COORD, DT_FLOAT32, 2, false, 1, 0.0, 1}};
+    vf::Geo g = vf::BuildGeo(r, t, plans, gp);
+    vf::EncOpts o;
+    o.expert = true; o.method = 1; o.enc_speed = 5; o.dec_speed = 5;
+    o.qbits = {11, 10};
+    o.pred = {MESH_PREDICTION_PARALLELOGRAM, target == 3 ? MESH_PREDICTION_TEX_COORDS_PORTABLE : MESH_PREDICTION_PARALLELOGRAM};
+    std::unique_ptr<Mesh> mesh = vf::ToMesh(g);
+    vf::EncResult er = vf::Encode(g, *mesh, mesh.get(), o);
+    if (!er.status.ok()) { fprintf(stderr, "special deprecated %d: %s\n", target, er.status.error_msg()); return 1; }
+    const uint8_t from = target == 3 ? MESH_PREDICTION_TEX_COORDS_PORTABLE : MESH_PREDICTION_PARALLELOGRAM;
+    bool done = false;
+    for (size_t off = 11; off < er.bytes.size() && !done; ++off) {
+      if (static_cast<uint8_t>(er.bytes[off]) != from) continue;
+      std::string m = er.bytes;
+      m[off] = static_cast<char>(target);
+      vf::Trace trace;
+      vf::DecResult dr = vf::Decode(m.data(), m.size());
+      bool seen = false;
+      for (auto &e : trace.evs) if (e.kind == draco::verif::EV_DEC_PREDICTION && e.a == target) seen = true;
+      if (dr.status.ok() && seen) {
+        std::ofstream f(dir + (target == 3 ? "/deprecated_texcoords_method3.drc" : "/deprecated_multi_parallelogram_method2.drc"), std::ios::binary);
+        f.write(m.data(), m.size());
+        printf("deprecated method %d: %zu bytes, method byte at %zu\n", target, m.size(), off);
+        done = true;
+      }
+    }
+    if (!done) { fprintf(stderr, "no decodable stream for deprecated method %d\n", target); return 1; }
+  }
   return 0;
 }
 
